@@ -328,6 +328,61 @@ theorem exit_trap_once (fuel : Nat) (s : St) (script : List Line) (m : Nat)
       | abort e => exact absurd rfl (ha e)
       | _ => simp [runExitTrap, ht]
 
+/-- `applyResult` and the restoring of `$?` never touch what was printed -/
+theorem applyResult_trace (s : St) (r : Res) : (s.applyResult r).trace = s.trace := by
+  unfold St.applyResult
+  cases r with
+  | break_ d => simp only; split <;> rfl
+  | _ => rfl
+
+/-- the general form of `exit_trap_once`: for ANY action (failing commands, errors and `exit` included),
+    on every terminating path other than `Abort` what the shell prints after the script is exactly what
+    ONE execution of the action prints, started in the state the script left, under a `Trap` frame -/
+theorem exit_trap_runs_action_once (fuel : Nat) (s : St) (script : List Line) (body : List Item)
+    (hr : (runScript fuel s script).2 ≠ .outOfFuel)
+    (ha : ∀ e, (runScript fuel s script).2 ≠ .break_ (.abort e))
+    (ht : (runScript fuel s script).1.exitTrap = some body)
+    (hb : (execList fuel ((runScript fuel s script).1.push .trap) body).2 ≠ .outOfFuel) :
+    (runShell fuel s script).1.trace =
+      (execList fuel ((runScript fuel s script).1.push .trap) body).1.trace := by
+  unfold runShell
+  generalize runScript fuel s script = x at *
+  obtain ⟨s1, r⟩ := x
+  simp only at hr ha ht hb
+  have key : (runExitTrap fuel s1).1.trace = (execList fuel (s1.push .trap) body).1.trace ∧
+      (runExitTrap fuel s1).2 ≠ .outOfFuel := by
+    unfold runExitTrap
+    rw [ht]
+    simp only
+    generalize execList fuel (s1.push .trap) body = y at *
+    obtain ⟨s2, t⟩ := y
+    simp only at hb
+    cases t with
+    | outOfFuel => exact absurd rfl hb
+    | continue_ => simp [applyResult_trace, St.pop]
+    | break_ d =>
+      cases d with
+      | interrupt x => cases x <;> simp [applyResult_trace, St.pop]
+      | _ => simp [applyResult_trace, St.pop]
+  obtain ⟨k1, k2⟩ := key
+  cases r with
+  | outOfFuel => exact absurd rfl hr
+  | continue_ =>
+    simp only
+    cases hr2 : (runExitTrap fuel s1).2 with
+    | outOfFuel => exact absurd hr2 k2
+    | continue_ => exact k1
+    | break_ d => exact k1
+  | break_ d =>
+    cases d with
+    | abort e => exact absurd rfl (ha e)
+    | _ =>
+      simp only
+      cases hr2 : (runExitTrap fuel s1).2 with
+      | outOfFuel => exact absurd hr2 k2
+      | continue_ => exact k1
+      | break_ d => exact k1
+
 /-- `Abort` skips the EXIT trap -/
 theorem abort_skips_exit_trap (fuel : Nat) (s : St) (script : List Line) (e : Option Nat)
     (h : (runScript fuel s script).2 = .break_ (.abort e)) :
